@@ -156,7 +156,13 @@ class Slice:
 
     def finish(self):
         """waits; returns index to restart from (or None)"""
-        out, err = self.proc.communicate()
+        try:
+            # backstop behind the worker's own watchdog thread: a worker that neither finishes nor dies is killed
+            out, err = self.proc.communicate(timeout=(self.max_seconds or 3000) + 900)
+        except subprocess.TimeoutExpired:
+            self.proc.kill()
+            out, err = self.proc.communicate()
+            err += b'\n[check.py] worker killed: no exit within the time cap plus 900 s\n'
         rc = self.proc.returncode
         crash_idx = None
         for line in out.decode('latin-1').splitlines():
